@@ -17,7 +17,7 @@ from mc.report import add_sample, add_violation, count, new_part
 
 LEVEL = "exploration"
 RULE = ("per flavour and tabled mnemonic: walking-one valuations (each bit of each field alone), an all-distinct "
-        "valuation, every value of every field against two backgrounds, all field pairs over reduced domains; all "
+        "valuation, every value of every field against two backgrounds, all field pairs over reduced domains, full products of shapes up to the tier's size limit; all "
         "65536 app ids and version byte pairs; bytes(Subroutine) must equal the frozen-table reference encoding and "
         "the reference bytes must decode to the instruction; distinct = distinct (flavour, mnemonic, leaves, header), "
         "non-trivial = some field non-zero")
@@ -99,6 +99,26 @@ def shard_instr(shard):
     return part
 
 
+def shard_product(shard):
+    """thorough: the full product of every shape with at most 2^22 points (complete domains), else reduced domains"""
+    _, flav, mn, limit = shard
+    part = new_part()
+    opcode, kinds = wiretable.FLAVOURS[flav][mn]
+    lk = wiretable.leaf_kinds(kinds)
+    dom = codec.FULL if codec.product_size(lk, codec.FULL) <= limit else codec.REDUCED
+    if codec.product_size(lk, dom) > limit:
+        part["notes"].append(f"product of {mn} over reduced domains exceeds the limit; skipped")
+        return part
+    n = 0
+    for lv in codec.full_product(lk, dom):
+        n += 1
+        check_one(flav, mn, lv, 0, (0, 0), part)
+    part["evals"] += n
+    part["distinct"] += max(0, n - 1)
+    count(part, "product-points", n)
+    return part
+
+
 def shard_header(shard):
     _, flav, which, lo, hi = shard
     part = new_part()
@@ -134,7 +154,7 @@ def shard_untabled(shard):
 
 
 def _dispatch(shard):
-    return {"instr": shard_instr, "header": shard_header, "untabled": shard_untabled}[shard[0]](shard)
+    return {"instr": shard_instr, "header": shard_header, "untabled": shard_untabled, "product": shard_product}[shard[0]](shard)
 
 
 def run(ctx):
@@ -143,6 +163,7 @@ def run(ctx):
         shards.append(("untabled", flav))
         for mn in wiretable.FLAVOURS[flav]:
             shards.append(("instr", flav, mn))
+            shards.append(("product", flav, mn, 70000 if ctx.tier == "quick" else 2 ** 22 + 1))
         step = 8192
         for lo in range(0, 65536, step):
             shards.append(("header", flav, "app", lo, lo + step))
@@ -152,6 +173,7 @@ def run(ctx):
         ctx.require(f"tabled-explored/{flav}", len(wiretable.FLAVOURS[flav]))
     ctx.require("header-cases", 3 * 65536 * 4)
     ctx.require("walking-ones", 500)
+    ctx.require("product-points", 10000)
 
 
 def replay(case, part):
